@@ -418,6 +418,7 @@ type omRun struct {
 	from    string
 	out     *pe.Outcome
 	root    *pe.Ptr
+	pre     *pe.Ptr // the state the call started from
 	effects []string
 }
 
@@ -477,7 +478,7 @@ func (m *omModel) exploreOM(r *report.RuleResult, check func(run omRun, ref omRe
 				if i < len(roots) {
 					root = roots[i]
 				}
-				next, ok := check(omRun{cs: cs, from: n.path, out: o, root: root, effects: o.Effects}, n.ref)
+				next, ok := check(omRun{cs: cs, from: n.path, out: o, root: root, pre: n.root, effects: o.Effects}, n.ref)
 				if !ok {
 					continue
 				}
@@ -605,9 +606,12 @@ func runOMLock(c *load.Ctx, r *report.RuleResult) {
 			}
 			held := "" // "", "R", "W"
 			acquires := 0
+			// changed: the implementation's own state before versus after the call (not the reference's:
+			// a method that diverges from the reference is OM-model's finding, not a locking one)
 			order, data, _ := m.abstract(run.root)
-			changed := strings.Join(order, " ") != strings.Join(ref.keys, " ") || len(data) != len(ref.vals)
-			for k, v := range ref.vals {
+			order0, data0, _ := m.abstract(run.pre)
+			changed := strings.Join(order, " ") != strings.Join(order0, " ") || len(data) != len(data0)
+			for k, v := range data0 {
 				if data[k] != v {
 					changed = true
 				}
